@@ -191,7 +191,8 @@ K_LOWER_INIT = 'C40:not-idempotent:convert_to_lower_case:name-only-in-parameter-
 def lower_case_initialiser_trigger(case):
     """listed finding: convert_to_lower_case leaves a name that occurs only in the initialisation expression of a PARAMETER
     in upper case on the first application and converts it on the second"""
-    return (case['T']['name'] == 'convert_to_lower_case' and 'mixed-case-identifiers' in (case.get('deco') or [])
+    # (identifier case also comes from the layout, not only from the 'mixed-case-identifiers' decoration)
+    return (case['T']['name'] == 'convert_to_lower_case'
             and 'parameter-used-only-in-parameter-initialisation' in (case.get('feats') or []))
 
 
